@@ -596,7 +596,12 @@ impl Arena {
       let next_node = next.load(Ordering::Acquire);
       let (next_node_size, next_next_offset) = decode_segment_node(next_node);
       if next_node_size == REMOVED_SEGMENT_NODE {
+        // `next` is being removed (or has already been handed out): what we know about `current` may be
+        // stale, so search again from the sentinel instead of waiting for `next` to change.
         backoff.snooze();
+        current = &header.sentinel;
+        current_node = current.load(Ordering::Acquire);
+        (current_node_size, next_offset) = decode_segment_node(current_node);
         continue;
       }
 
